@@ -18,7 +18,14 @@
 //!   recfail <Kind> <n>         -> err : try_serialize_record of an UNSERIALISABLE value (variant n, see `unserialisable`) under
 //!                                 that kind must fail and must have no effect on any later encode on the same thread
 //!   chunk <addr hex32> <value hex> -> serialise a Chunk carrying that (possibly forged) address, deserialise: recomputed|kept
-//! `dec`/`recdec` print `ok` only when the implementation accepts AND re-serialising the decoded value gives a prefix
+//!   cenc <Type> <named tree>  -> hex of the CBOR bytes the network codec writes (libp2p request_response::cbor = cbor4ii serde):
+//!                                 for Request / Response through the REAL codec object (`write_request` / `write_response`), for
+//!                                 their component types through the call it makes (`cbor4ii::serde::to_vec(Vec::new(), &v)`).
+//!                                 Trees are in "named" form (struct bodies are R nodes with field names — they are on the wire).
+//!   cdec <Type> <hex>          -> ok <named tree> | reject   (`read_request` / `read_response` / `cbor4ii::serde::from_slice`)
+//!   cgold <Type> <hex>         -> the same for a GOLDEN vector (bytes written by the code as of the day the vector was recorded):
+//!                                 `ok` only if the current code reads it and writes exactly the same bytes back
+//! `dec`/`recdec`/`cdec` print `ok` only when the implementation accepts AND re-serialising the decoded value gives a prefix
 //! of the input (canonical acceptance); the model applies the same rule.  So: model accepts ⇒ implementation accepts
 //! with the same value, canonical inputs are compared exactly, and for every other input only "no panic" is required.
 #[path = "wire/tree.rs"]
@@ -32,6 +39,8 @@ use ant_protocol::storage::{
     ScratchpadAddress, Transaction, TransactionAddress,
 };
 use ant_protocol::{NetworkAddress, PrettyPrintRecordKey};
+use ant_registers::{EntryHash, Permissions, Register, RegisterCrdt, RegisterOp, SignedRegister};
+use std::collections::BTreeSet;
 use bytes::Bytes;
 use common::{hex, unhex, Out, Rng};
 use libp2p::kad::{Record, RecordKey};
@@ -40,7 +49,7 @@ use rand::{Rng as _, SeedableRng};
 use serde::{de::DeserializeOwned, Serialize};
 use std::panic::{catch_unwind, AssertUnwindSafe};
 use std::time::{Duration, SystemTime};
-use tree::{from_tree, to_tree, Tree};
+use tree::{from_tree, to_tree, to_tree_named, Tree};
 use xor_name::XorName;
 
 const KINDS: [RecordKind; 8] = [
@@ -114,6 +123,8 @@ fn types() -> Vec<Ty> {
         ty!("PaidScratchpad", (ProofOfPayment, Scratchpad)),
         ty!("Transactions", Vec<Transaction>),
         ty!("PaidTransaction", (ProofOfPayment, Transaction)),
+        ty!("SignedRegister", SignedRegister),
+        ty!("PaidRegister", (ProofOfPayment, SignedRegister)),
         ty!("ProtocolError", ProtocolError),
         ty!("Cmd", Cmd),
         ty!("Query", Query),
@@ -233,22 +244,58 @@ fn gen_transaction(rng: &mut Rng) -> Transaction {
     let outputs = (0..rng.below(3)).map(|_| (sk(rng).public_key(), xor(rng).0)).collect();
     Transaction::new(k.public_key(), parents, xor(rng).0, outputs, &k)
 }
+/// a register built with the real API: owner-signed base (either permission kind, 0..2 extra writers), 0..4 signed ops
+/// written through a `RegisterCrdt` (chains and forks, entries of 0..40 bytes), the ops coming from the owner or a writer
+fn gen_signed_register(rng: &mut Rng) -> SignedRegister {
+    let owner = sk(rng);
+    let others: Vec<bls::SecretKey> = (0..rng.below(3)).map(|_| sk(rng)).collect();
+    let perms = if rng.chance(1, 3) { Permissions::new_anyone_can_write() } else { Permissions::new_with(others.iter().map(|k| k.public_key())) };
+    let base = Register::new(owner.public_key(), xor(rng), perms);
+    let sig = owner.sign(base.bytes().expect("register bytes"));
+    let mut reg = SignedRegister::new(base, sig, BTreeSet::new());
+    let mut crdt = RegisterCrdt::new(*reg.address());
+    let mut hashes: Vec<EntryHash> = vec![];
+    for _ in 0..rng.below(5) {
+        let n = rng.below(41) as usize;
+        let children: BTreeSet<EntryHash> = match rng.below(3) {
+            0 => BTreeSet::new(),
+            1 => hashes.last().copied().into_iter().collect(),
+            _ => hashes.iter().copied().collect(),
+        };
+        let (h, addr, crdt_op) = crdt.write(rng.bytes(n), &children).expect("crdt write");
+        let signer = if others.is_empty() || rng.chance(1, 2) { &owner } else { &others[rng.below(others.len() as u64) as usize] };
+        if reg.add_op(RegisterOp::new(addr, crdt_op, signer)).is_ok() {
+            hashes.push(h);
+        }
+    }
+    reg
+}
 fn gen_error(rng: &mut Rng) -> ProtocolError {
-    match rng.below(17) {
+    gen_error_p(rng, false)
+}
+/// `plain`: no leaf whose decoding involves a cryptographic / multiaddr validity check (BLS keys, multiaddrs)
+fn gen_error_p(rng: &mut Rng, plain: bool) -> ProtocolError {
+    let pick = loop {
+        let k = rng.below(17);
+        if !(plain && (k == 5 || k == 6)) {
+            break k;
+        }
+    };
+    match pick {
         0 => ProtocolError::UserDataDirectoryNotObtainable,
         1 => ProtocolError::CouldNotObtainPortFromMultiAddr,
         2 => ProtocolError::ParseRetryStrategyError,
         3 => ProtocolError::CouldNotObtainDataDir,
-        4 => ProtocolError::ChunkDoesNotExist(gen_addr(rng, false)),
+        4 => ProtocolError::ChunkDoesNotExist(gen_addr(rng, plain)),
         5 => ProtocolError::RegisterNotFound(Box::new(RegisterAddress::new(xor(rng), sk(rng).public_key()))),
         6 => ProtocolError::RegisterAlreadyClaimed(sk(rng).public_key()),
-        7 => ProtocolError::RegisterRecordNotFound { holder: Box::new(gen_addr(rng, false)), key: Box::new(gen_addr(rng, false)) },
+        7 => ProtocolError::RegisterRecordNotFound { holder: Box::new(gen_addr(rng, plain)), key: Box::new(gen_addr(rng, plain)) },
         8 => ProtocolError::ScratchpadHexDeserializeFailed,
         9 => ProtocolError::ScratchpadCipherTextFailed,
         10 => ProtocolError::ScratchpadCipherTextInvalid,
         11 => ProtocolError::GetStoreQuoteFailed,
         12 => ProtocolError::QuoteGenerationFailed,
-        13 => ProtocolError::ReplicatedRecordNotFound { holder: Box::new(gen_addr(rng, false)), key: Box::new(gen_addr(rng, false)) },
+        13 => ProtocolError::ReplicatedRecordNotFound { holder: Box::new(gen_addr(rng, plain)), key: Box::new(gen_addr(rng, plain)) },
         14 => ProtocolError::RecordHeaderParsingFailed,
         15 => ProtocolError::RecordParsingFailed,
         _ => {
@@ -264,22 +311,28 @@ fn gen_string(rng: &mut Rng) -> String {
         .collect()
 }
 fn gen_cmd(rng: &mut Rng) -> Cmd {
+    gen_cmd_p(rng, false)
+}
+fn gen_cmd_p(rng: &mut Rng, plain: bool) -> Cmd {
     if rng.chance(2, 3) {
         let n = rng.below(20);
-        Cmd::Replicate { holder: gen_addr(rng, false), keys: (0..n).map(|_| (gen_addr(rng, false), gen_record_type(rng))).collect() }
+        Cmd::Replicate { holder: gen_addr(rng, plain), keys: (0..n).map(|_| (gen_addr(rng, plain), gen_record_type(rng))).collect() }
     } else {
-        Cmd::PeerConsideredAsBad { detected_by: gen_addr(rng, false), bad_peer: gen_addr(rng, false), bad_behaviour: gen_string(rng) }
+        Cmd::PeerConsideredAsBad { detected_by: gen_addr(rng, plain), bad_peer: gen_addr(rng, plain), bad_behaviour: gen_string(rng) }
     }
 }
 fn gen_query(rng: &mut Rng) -> Query {
+    gen_query_p(rng, false)
+}
+fn gen_query_p(rng: &mut Rng, plain: bool) -> Query {
     match rng.below(6) {
-        0 => Query::GetStoreQuote { key: gen_addr(rng, false), nonce: if rng.chance(1, 2) { None } else { Some(gen_u64(rng)) }, difficulty: gen_u64(rng) as usize },
-        1 => Query::GetReplicatedRecord { requester: gen_addr(rng, false), key: gen_addr(rng, false) },
-        2 => Query::GetRegisterRecord { requester: gen_addr(rng, false), key: gen_addr(rng, false) },
-        3 => Query::GetChunkExistenceProof { key: gen_addr(rng, false), nonce: gen_u64(rng), difficulty: gen_u64(rng) as usize },
-        4 => Query::CheckNodeInProblem(gen_addr(rng, false)),
+        0 => Query::GetStoreQuote { key: gen_addr(rng, plain), nonce: if rng.chance(1, 2) { None } else { Some(gen_u64(rng)) }, difficulty: gen_u64(rng) as usize },
+        1 => Query::GetReplicatedRecord { requester: gen_addr(rng, plain), key: gen_addr(rng, plain) },
+        2 => Query::GetRegisterRecord { requester: gen_addr(rng, plain), key: gen_addr(rng, plain) },
+        3 => Query::GetChunkExistenceProof { key: gen_addr(rng, plain), nonce: gen_u64(rng), difficulty: gen_u64(rng) as usize },
+        4 => Query::CheckNodeInProblem(gen_addr(rng, plain)),
         _ => Query::GetClosestPeers {
-            key: gen_addr(rng, false),
+            key: gen_addr(rng, plain),
             num_of_peers: if rng.chance(1, 2) { None } else { Some(gen_u64(rng) as usize) },
             range: if rng.chance(1, 2) { None } else { Some(xor(rng).0) },
             sign_result: rng.chance(1, 2),
@@ -287,17 +340,23 @@ fn gen_query(rng: &mut Rng) -> Query {
     }
 }
 fn gen_result<T>(rng: &mut Rng, ok: impl FnOnce(&mut Rng) -> T) -> Result<T, ProtocolError> {
+    gen_result_p(rng, false, ok)
+}
+fn gen_result_p<T>(rng: &mut Rng, plain: bool, ok: impl FnOnce(&mut Rng) -> T) -> Result<T, ProtocolError> {
     if rng.chance(2, 3) {
         Ok(ok(rng))
     } else {
-        Err(gen_error(rng))
+        Err(gen_error_p(rng, plain))
     }
 }
 fn gen_proofs(rng: &mut Rng) -> Vec<(NetworkAddress, Result<ChunkProof, ProtocolError>)> {
+    gen_proofs_p(rng, false)
+}
+fn gen_proofs_p(rng: &mut Rng, plain: bool) -> Vec<(NetworkAddress, Result<ChunkProof, ProtocolError>)> {
     (0..rng.below(4))
         .map(|_| {
             let n = rng.below(20) as usize;
-            (gen_addr(rng, false), gen_result(rng, |r| ChunkProof::new(&r.bytes(n), r.next())))
+            (gen_addr(rng, plain), gen_result_p(rng, plain, |r| ChunkProof::new(&r.bytes(n), r.next())))
         })
         .collect()
 }
@@ -310,24 +369,30 @@ fn gen_multiaddr(rng: &mut Rng) -> Multiaddr {
     s.parse().expect("multiaddr")
 }
 fn gen_query_response(rng: &mut Rng) -> QueryResponse {
+    gen_query_response_p(rng, false)
+}
+fn gen_query_response_p(rng: &mut Rng, plain: bool) -> QueryResponse {
     match rng.below(6) {
-        0 => QueryResponse::GetStoreQuote { quote: gen_result(rng, gen_quote), peer_address: gen_addr(rng, false), storage_proofs: gen_proofs(rng) },
-        1 => QueryResponse::CheckNodeInProblem { reporter_address: gen_addr(rng, false), target_address: gen_addr(rng, false), is_in_trouble: rng.chance(1, 2) },
-        2 => QueryResponse::GetReplicatedRecord(gen_result(rng, |r| (gen_addr(r, false), gen_bytes(r)))),
-        3 => QueryResponse::GetRegisterRecord(gen_result(rng, |r| (gen_addr(r, false), gen_bytes(r)))),
-        4 => QueryResponse::GetChunkExistenceProof(gen_proofs(rng)),
+        0 => QueryResponse::GetStoreQuote { quote: gen_result_p(rng, plain, gen_quote), peer_address: gen_addr(rng, plain), storage_proofs: gen_proofs_p(rng, plain) },
+        1 => QueryResponse::CheckNodeInProblem { reporter_address: gen_addr(rng, plain), target_address: gen_addr(rng, plain), is_in_trouble: rng.chance(1, 2) },
+        2 => QueryResponse::GetReplicatedRecord(gen_result_p(rng, plain, |r| (gen_addr(r, plain), gen_bytes(r)))),
+        3 => QueryResponse::GetRegisterRecord(gen_result_p(rng, plain, |r| (gen_addr(r, plain), gen_bytes(r)))),
+        4 => QueryResponse::GetChunkExistenceProof(gen_proofs_p(rng, plain)),
         _ => QueryResponse::GetClosestPeers {
-            target: gen_addr(rng, false),
-            peers: (0..rng.below(4)).map(|_| (gen_addr(rng, false), (0..rng.below(3)).map(|_| gen_multiaddr(rng)).collect())).collect(),
+            target: gen_addr(rng, plain),
+            peers: (0..rng.below(4)).map(|_| (gen_addr(rng, plain), (0..if plain { 0 } else { rng.below(3) }).map(|_| gen_multiaddr(rng)).collect())).collect(),
             signature: if rng.chance(1, 2) { None } else { Some(rng.bytes(*rng.clone().pick(&[0usize, 64, 96]))) },
         },
     }
 }
 fn gen_cmd_response(rng: &mut Rng) -> CmdResponse {
+    gen_cmd_response_p(rng, false)
+}
+fn gen_cmd_response_p(rng: &mut Rng, plain: bool) -> CmdResponse {
     if rng.chance(1, 2) {
-        CmdResponse::Replicate(gen_result(rng, |_| ()))
+        CmdResponse::Replicate(gen_result_p(rng, plain, |_| ()))
     } else {
-        CmdResponse::PeerConsideredAsBad(gen_result(rng, |_| ()))
+        CmdResponse::PeerConsideredAsBad(gen_result_p(rng, plain, |_| ()))
     }
 }
 
@@ -349,6 +414,8 @@ fn gen_tree(rng: &mut Rng, name: &str, plain: bool) -> Tree {
         "PaidScratchpad" => tree_of(&(gen_proof(rng), gen_scratchpad(rng))),
         "Transactions" => tree_of(&(0..rng.below(3)).map(|_| gen_transaction(rng)).collect::<Vec<_>>()),
         "PaidTransaction" => tree_of(&(gen_proof(rng), gen_transaction(rng))),
+        "SignedRegister" => tree_of(&gen_signed_register(rng)),
+        "PaidRegister" => tree_of(&(gen_proof(rng), gen_signed_register(rng))),
         "ProtocolError" => tree_of(&gen_error(rng)),
         "Cmd" => tree_of(&gen_cmd(rng)),
         "Query" => tree_of(&gen_query(rng)),
@@ -368,8 +435,316 @@ fn kinds_for(name: &str) -> &'static [RecordKind] {
         "PaidScratchpad" => &[RecordKind::ScratchpadWithPayment],
         "Transactions" => &[RecordKind::Transaction],
         "PaidTransaction" => &[RecordKind::TransactionWithPayment],
+        "SignedRegister" => &[RecordKind::Register],
+        "PaidRegister" => &[RecordKind::RegisterWithPayment],
         _ => &[],
     }
+}
+
+// ---------------------------------------------------------------- CBOR: the codec Request / Response really travel through
+
+/// The codec type behind `libp2p::request_response::cbor::Behaviour<Request, Response>` — exactly the type
+/// `ant-networking/src/driver.rs` instantiates.  Its module is private, so the type is recovered from the public alias.
+trait CodecOf {
+    type C;
+}
+impl<C: libp2p::request_response::Codec + Clone + Send + 'static> CodecOf for libp2p::request_response::Behaviour<C> {
+    type C = C;
+}
+type RealCodec = <libp2p::request_response::cbor::Behaviour<Request, Response> as CodecOf>::C;
+
+fn proto() -> libp2p::StreamProtocol {
+    libp2p::StreamProtocol::new("/verif/c12")
+}
+fn codec_write_request(v: Request) -> Result<Vec<u8>, String> {
+    use libp2p::request_response::Codec as _;
+    let mut buf: Vec<u8> = vec![];
+    futures::executor::block_on(RealCodec::default().write_request(&proto(), &mut buf, v)).map_err(|e| e.to_string())?;
+    Ok(buf)
+}
+fn codec_write_response(v: Response) -> Result<Vec<u8>, String> {
+    use libp2p::request_response::Codec as _;
+    let mut buf: Vec<u8> = vec![];
+    futures::executor::block_on(RealCodec::default().write_response(&proto(), &mut buf, v)).map_err(|e| e.to_string())?;
+    Ok(buf)
+}
+fn codec_read_request(b: &[u8]) -> Result<Request, String> {
+    use libp2p::request_response::Codec as _;
+    let mut io = futures::io::Cursor::new(b.to_vec());
+    futures::executor::block_on(RealCodec::default().read_request(&proto(), &mut io)).map_err(|e| e.to_string())
+}
+fn codec_read_response(b: &[u8]) -> Result<Response, String> {
+    use libp2p::request_response::Codec as _;
+    let mut io = futures::io::Cursor::new(b.to_vec());
+    futures::executor::block_on(RealCodec::default().read_response(&proto(), &mut io)).map_err(|e| e.to_string())
+}
+
+struct CTy {
+    name: &'static str,
+    /// named tree -> typed value -> CBOR bytes; also checks that tree -> value -> tree is the identity
+    enc: fn(&Tree) -> Result<Vec<u8>, String>,
+    /// bytes -> typed value; Ok((named tree, re-serialised bytes))
+    dec: fn(&[u8]) -> Result<(Tree, Vec<u8>), String>,
+}
+fn value_of<T: Serialize + DeserializeOwned>(t: &Tree) -> Result<T, String> {
+    let v: T = from_tree(t).map_err(|e| format!("tree does not describe a value of this type: {e}"))?;
+    let back = to_tree_named(&v).map_err(|e| e.to_string())?;
+    if back != *t {
+        return Err(format!("tree round trip differs: {}", back.text()));
+    }
+    Ok(v)
+}
+/// what the codec's `write_*` does with the value
+fn cbor_to_vec<T: Serialize>(v: &T) -> Result<Vec<u8>, String> {
+    cbor4ii::serde::to_vec(Vec::new(), v).map_err(|e| e.to_string())
+}
+fn cenc_t<T: Serialize + DeserializeOwned>(t: &Tree) -> Result<Vec<u8>, String> {
+    cbor_to_vec(&value_of::<T>(t)?)
+}
+fn cdec_t<T: Serialize + DeserializeOwned>(b: &[u8]) -> Result<(Tree, Vec<u8>), String> {
+    // what the codec's `read_*` does with the bytes it has read
+    let v: T = cbor4ii::serde::from_slice(b).map_err(|e| e.to_string())?;
+    Ok((to_tree_named(&v).map_err(|e| e.to_string())?, cbor_to_vec(&v)?))
+}
+fn cenc_request(t: &Tree) -> Result<Vec<u8>, String> {
+    codec_write_request(value_of::<Request>(t)?)
+}
+fn cenc_response(t: &Tree) -> Result<Vec<u8>, String> {
+    codec_write_response(value_of::<Response>(t)?)
+}
+fn cdec_request(b: &[u8]) -> Result<(Tree, Vec<u8>), String> {
+    let v = codec_read_request(b)?;
+    Ok((to_tree_named(&v).map_err(|e| e.to_string())?, codec_write_request(v)?))
+}
+fn cdec_response(b: &[u8]) -> Result<(Tree, Vec<u8>), String> {
+    let v = codec_read_response(b)?;
+    Ok((to_tree_named(&v).map_err(|e| e.to_string())?, codec_write_response(v)?))
+}
+macro_rules! cty {
+    ($name:expr, $t:ty) => {
+        CTy { name: $name, enc: cenc_t::<$t>, dec: cdec_t::<$t> }
+    };
+}
+fn ctypes() -> Vec<CTy> {
+    vec![
+        cty!("RecordType", RecordType),
+        cty!("NetworkAddress", NetworkAddress),
+        cty!("QuotingMetrics", QuotingMetrics),
+        cty!("PaymentQuote", PaymentQuote),
+        cty!("ProtocolError", ProtocolError),
+        cty!("Cmd", Cmd),
+        cty!("Query", Query),
+        CTy { name: "Request", enc: cenc_request, dec: cdec_request },
+        cty!("CmdResponse", CmdResponse),
+        cty!("QueryResponse", QueryResponse),
+        CTy { name: "Response", enc: cenc_response, dec: cdec_response },
+    ]
+}
+fn named_tree_of<T: Serialize>(v: &T) -> Tree {
+    to_tree_named(v).expect("value to named tree")
+}
+fn gen_request(rng: &mut Rng, plain: bool) -> Request {
+    if rng.chance(1, 3) {
+        Request::Cmd(gen_cmd_p(rng, plain))
+    } else {
+        Request::Query(gen_query_p(rng, plain))
+    }
+}
+fn gen_response(rng: &mut Rng, plain: bool) -> Response {
+    if rng.chance(1, 4) {
+        Response::Cmd(gen_cmd_response_p(rng, plain))
+    } else {
+        Response::Query(gen_query_response_p(rng, plain))
+    }
+}
+/// a generated value of the named CBOR type, as a named tree
+fn gen_ctree(rng: &mut Rng, name: &str, plain: bool) -> Tree {
+    match name {
+        "RecordType" => named_tree_of(&gen_record_type(rng)),
+        "NetworkAddress" => named_tree_of(&gen_addr(rng, plain)),
+        "QuotingMetrics" => named_tree_of(&gen_metrics(rng)),
+        "PaymentQuote" => named_tree_of(&gen_quote(rng)),
+        "ProtocolError" => named_tree_of(&gen_error_p(rng, plain)),
+        "Cmd" => named_tree_of(&gen_cmd_p(rng, plain)),
+        "Query" => named_tree_of(&gen_query_p(rng, plain)),
+        "Request" => named_tree_of(&gen_request(rng, plain)),
+        "CmdResponse" => named_tree_of(&gen_cmd_response_p(rng, plain)),
+        "QueryResponse" => named_tree_of(&gen_query_response_p(rng, plain)),
+        "Response" => named_tree_of(&gen_response(rng, plain)),
+        _ => Tree::Unit,
+    }
+}
+/// one hand-built message per variant of Request / Response (and per interesting payload), the corpus every run starts with
+fn message_corpus() -> Vec<(&'static str, Tree)> {
+    let a = |b: u8| NetworkAddress::ChunkAddress(ChunkAddress::new(XorName([b; 32])));
+    let peer = NetworkAddress::from_peer(libp2p::identity::Keypair::ed25519_from_bytes([7u8; 32]).expect("key").public().to_peer_id());
+    let rk = NetworkAddress::RecordKey(Bytes::from_static(b"record-key"));
+    let key = PrettyPrintRecordKey::from(&RecordKey::new(&[1u8, 2, 3, 0x18, 0xff])).into_owned();
+    let mut quote = PaymentQuote::zero();
+    quote.content = XorName([9; 32]);
+    quote.timestamp = SystemTime::UNIX_EPOCH + Duration::new(1_700_000_000, 123_456_789);
+    quote.quoting_metrics.network_size = Some(5000);
+    quote.pub_key = vec![1, 2, 3];
+    quote.signature = vec![4; 64];
+    let rq = |r: Request| ("Request", named_tree_of(&r));
+    let rs = |r: Response| ("Response", named_tree_of(&r));
+    vec![
+        rq(Request::Cmd(Cmd::Replicate { holder: peer.clone(), keys: vec![(a(1), RecordType::Chunk), (rk.clone(), RecordType::Scratchpad), (a(2), RecordType::NonChunk(XorName([3; 32])))] })),
+        rq(Request::Cmd(Cmd::Replicate { holder: peer.clone(), keys: vec![] })),
+        rq(Request::Cmd(Cmd::PeerConsideredAsBad { detected_by: peer.clone(), bad_peer: a(4), bad_behaviour: "failed chunk proof √".into() })),
+        rq(Request::Query(Query::GetStoreQuote { key: a(5), nonce: None, difficulty: 0 })),
+        rq(Request::Query(Query::GetStoreQuote { key: a(5), nonce: Some(u64::MAX), difficulty: 24 })),
+        rq(Request::Query(Query::GetReplicatedRecord { requester: peer.clone(), key: a(6) })),
+        rq(Request::Query(Query::GetRegisterRecord { requester: peer.clone(), key: rk.clone() })),
+        rq(Request::Query(Query::GetChunkExistenceProof { key: a(7), nonce: 23, difficulty: 256 })),
+        rq(Request::Query(Query::CheckNodeInProblem(peer.clone()))),
+        rq(Request::Query(Query::GetClosestPeers { key: a(8), num_of_peers: Some(65536), range: Some([0xAA; 32]), sign_result: true })),
+        rq(Request::Query(Query::GetClosestPeers { key: a(8), num_of_peers: None, range: None, sign_result: false })),
+        rs(Response::Cmd(CmdResponse::Replicate(Ok(())))),
+        rs(Response::Cmd(CmdResponse::PeerConsideredAsBad(Err(ProtocolError::RecordParsingFailed)))),
+        rs(Response::Query(QueryResponse::GetStoreQuote { quote: Err(ProtocolError::RecordExists(key.clone())), peer_address: peer.clone(), storage_proofs: vec![] })),
+        rs(Response::Query(QueryResponse::GetStoreQuote {
+            quote: Ok(quote.clone()),
+            peer_address: peer.clone(),
+            storage_proofs: vec![(a(9), Ok(ChunkProof::new(b"value", 1))), (a(10), Err(ProtocolError::ChunkDoesNotExist(a(10))))],
+        })),
+        rs(Response::Query(QueryResponse::CheckNodeInProblem { reporter_address: peer.clone(), target_address: a(11), is_in_trouble: true })),
+        rs(Response::Query(QueryResponse::GetReplicatedRecord(Ok((peer.clone(), Bytes::from(vec![0xEE; 300])))))),
+        rs(Response::Query(QueryResponse::GetReplicatedRecord(Err(ProtocolError::ReplicatedRecordNotFound { holder: Box::new(peer.clone()), key: Box::new(a(12)) })))),
+        rs(Response::Query(QueryResponse::GetRegisterRecord(Ok((peer.clone(), Bytes::new()))))),
+        rs(Response::Query(QueryResponse::GetRegisterRecord(Err(ProtocolError::RegisterRecordNotFound { holder: Box::new(peer.clone()), key: Box::new(rk.clone()) })))),
+        rs(Response::Query(QueryResponse::GetChunkExistenceProof(vec![(a(13), Ok(ChunkProof::new(b"x", 2)))]))),
+        rs(Response::Query(QueryResponse::GetClosestPeers { target: a(14), peers: vec![(peer.clone(), vec!["/ip4/10.0.0.1/udp/1200/quic-v1".parse().expect("multiaddr")])], signature: Some(vec![5; 96]) })),
+        rs(Response::Query(QueryResponse::GetClosestPeers { target: a(14), peers: vec![], signature: None })),
+    ]
+}
+
+/// GOLDEN vectors: CBOR bytes of fixed messages as written by the code on the day they were recorded.  Nodes built from an
+/// older source put exactly these bytes on the wire; the current code has to read them and write them back unchanged.
+const GOLDEN: &[(&str, &str)] = &[
+    // GOLDEN-BEGIN (the 23 corpus messages of `message_corpus`, recorded from the unmodified tree)
+    ("Request", "a163436d64a1695265706c6963617465a266686f6c646572a1665065657249645826002408011220ea4a6c63e29c520abef5507b132ec5f9954776aebebe7b92421eea691446d22c646b6579738382a16c4368756e6b4164647265737398200101010101010101010101010101010101010101010101010101010101010101654368756e6b82a1695265636f72644b65794a7265636f72642d6b65796a5363726174636870616482a16c4368756e6b4164647265737398200202020202020202020202020202020202020202020202020202020202020202a1684e6f6e4368756e6b98200303030303030303030303030303030303030303030303030303030303030303"),
+    ("Request", "a163436d64a1695265706c6963617465a266686f6c646572a1665065657249645826002408011220ea4a6c63e29c520abef5507b132ec5f9954776aebebe7b92421eea691446d22c646b65797380"),
+    ("Request", "a163436d64a17350656572436f6e736964657265644173426164a36b64657465637465645f6279a1665065657249645826002408011220ea4a6c63e29c520abef5507b132ec5f9954776aebebe7b92421eea691446d22c686261645f70656572a16c4368756e6b41646472657373982004040404040404040404040404040404040404040404040404040404040404046d6261645f6265686176696f7572766661696c6564206368756e6b2070726f6f6620e2889a"),
+    ("Request", "a1655175657279a16d47657453746f726551756f7465a3636b6579a16c4368756e6b4164647265737398200505050505050505050505050505050505050505050505050505050505050505656e6f6e6365f66a646966666963756c747900"),
+    ("Request", "a1655175657279a16d47657453746f726551756f7465a3636b6579a16c4368756e6b4164647265737398200505050505050505050505050505050505050505050505050505050505050505656e6f6e63651bffffffffffffffff6a646966666963756c74791818"),
+    ("Request", "a1655175657279a1734765745265706c6963617465645265636f7264a269726571756573746572a1665065657249645826002408011220ea4a6c63e29c520abef5507b132ec5f9954776aebebe7b92421eea691446d22c636b6579a16c4368756e6b4164647265737398200606060606060606060606060606060606060606060606060606060606060606"),
+    ("Request", "a1655175657279a17147657452656769737465725265636f7264a269726571756573746572a1665065657249645826002408011220ea4a6c63e29c520abef5507b132ec5f9954776aebebe7b92421eea691446d22c636b6579a1695265636f72644b65794a7265636f72642d6b6579"),
+    ("Request", "a1655175657279a1764765744368756e6b4578697374656e636550726f6f66a3636b6579a16c4368756e6b4164647265737398200707070707070707070707070707070707070707070707070707070707070707656e6f6e6365176a646966666963756c7479190100"),
+    ("Request", "a1655175657279a172436865636b4e6f6465496e50726f626c656da1665065657249645826002408011220ea4a6c63e29c520abef5507b132ec5f9954776aebebe7b92421eea691446d22c"),
+    ("Request", "a1655175657279a16f476574436c6f736573745065657273a4636b6579a16c4368756e6b41646472657373982008080808080808080808080808080808080808080808080808080808080808086c6e756d5f6f665f70656572731a000100006572616e6765982018aa18aa18aa18aa18aa18aa18aa18aa18aa18aa18aa18aa18aa18aa18aa18aa18aa18aa18aa18aa18aa18aa18aa18aa18aa18aa18aa18aa18aa18aa18aa18aa6b7369676e5f726573756c74f5"),
+    ("Request", "a1655175657279a16f476574436c6f736573745065657273a4636b6579a16c4368756e6b41646472657373982008080808080808080808080808080808080808080808080808080808080808086c6e756d5f6f665f7065657273f66572616e6765f66b7369676e5f726573756c74f4"),
+    ("Response", "a163436d64a1695265706c6963617465a1624f6b80"),
+    ("Response", "a163436d64a17350656572436f6e736964657265644173426164a163457272735265636f726450617273696e674661696c6564"),
+    ("Response", "a1655175657279a16d47657453746f726551756f7465a36571756f7465a163457272a16c5265636f726445786973747385010203181818ff6c706565725f61646472657373a1665065657249645826002408011220ea4a6c63e29c520abef5507b132ec5f9954776aebebe7b92421eea691446d22c6e73746f726167655f70726f6f667380"),
+    ("Response", "a1655175657279a16d47657453746f726551756f7465a36571756f7465a1624f6ba667636f6e74656e74982009090909090909090909090909090909090909090909090909090909090909096974696d657374616d70a270736563735f73696e63655f65706f63681a6553f100716e616e6f735f73696e63655f65706f63681a075bcd156f71756f74696e675f6d657472696373a674636c6f73655f7265636f7264735f73746f726564006b6d61785f7265636f726473007672656365697665645f7061796d656e745f636f756e7400696c6976655f74696d65006f6e6574776f726b5f64656e73697479f66c6e6574776f726b5f73697a651913886f726577617264735f616464726573735414a1c4017979ad6e2d4bd1fdd420f76858c9b65d677075625f6b657983010203697369676e61747572659840040404040404040404040404040404040404040404040404040404040404040404040404040404040404040404040404040404040404040404040404040404046c706565725f61646472657373a1665065657249645826002408011220ea4a6c63e29c520abef5507b132ec5f9954776aebebe7b92421eea691446d22c6e73746f726167655f70726f6f66738282a16c4368756e6b4164647265737398200909090909090909090909090909090909090909090909090909090909090909a1624f6b9820187518c8182e1892188f185a18ec188318e71870186312185c18bc18d918c4183818e818a318f00f18c218521822130b18ed1866188018a718f90c82a16c4368756e6b4164647265737398200a0a0a0a0a0a0a0a0a0a0a0a0a0a0a0a0a0a0a0a0a0a0a0a0a0a0a0a0a0a0a0aa163457272a1714368756e6b446f65734e6f744578697374a16c4368756e6b4164647265737398200a0a0a0a0a0a0a0a0a0a0a0a0a0a0a0a0a0a0a0a0a0a0a0a0a0a0a0a0a0a0a0a"),
+    ("Response", "a1655175657279a172436865636b4e6f6465496e50726f626c656da3707265706f727465725f61646472657373a1665065657249645826002408011220ea4a6c63e29c520abef5507b132ec5f9954776aebebe7b92421eea691446d22c6e7461726765745f61646472657373a16c4368756e6b4164647265737398200b0b0b0b0b0b0b0b0b0b0b0b0b0b0b0b0b0b0b0b0b0b0b0b0b0b0b0b0b0b0b0b6d69735f696e5f74726f75626c65f5"),
+    ("Response", "a1655175657279a1734765745265706c6963617465645265636f7264a1624f6b82a1665065657249645826002408011220ea4a6c63e29c520abef5507b132ec5f9954776aebebe7b92421eea691446d22c59012ceeeeeeeeeeeeeeeeeeeeeeeeeeeeeeeeeeeeeeeeeeeeeeeeeeeeeeeeeeeeeeeeeeeeeeeeeeeeeeeeeeeeeeeeeeeeeeeeeeeeeeeeeeeeeeeeeeeeeeeeeeeeeeeeeeeeeeeeeeeeeeeeeeeeeeeeeeeeeeeeeeeeeeeeeeeeeeeeeeeeeeeeeeeeeeeeeeeeeeeeeeeeeeeeeeeeeeeeeeeeeeeeeeeeeeeeeeeeeeeeeeeeeeeeeeeeeeeeeeeeeeeeeeeeeeeeeeeeeeeeeeeeeeeeeeeeeeeeeeeeeeeeeeeeeeeeeeeeeeeeeeeeeeeeeeeeeeeeeeeeeeeeeeeeeeeeeeeeeeeeeeeeeeeeeeeeeeeeeeeeeeeeeeeeeeeeeeeeeeeeeeeeeeeeeeeeeeeeeeeeeeeeeeeeeeeeeeeeeeeeeeeeeeeeeeeeeeeeeeeeeeeeeeeeeeeeeeeeeeeeeeeeeeeeeeeeeeeeeeeeeeeeeeeeeeeeeeeeeeeeeeeeeeeeeeeeeeeeeeeeeeeeeeeeeeeeeeeeeeeeeeeeeeeeeeeeeeeeeeeeeeeeeeeeeeeeeeeeeeee"),
+    ("Response", "a1655175657279a1734765745265706c6963617465645265636f7264a163457272a178185265706c6963617465645265636f72644e6f74466f756e64a266686f6c646572a1665065657249645826002408011220ea4a6c63e29c520abef5507b132ec5f9954776aebebe7b92421eea691446d22c636b6579a16c4368756e6b4164647265737398200c0c0c0c0c0c0c0c0c0c0c0c0c0c0c0c0c0c0c0c0c0c0c0c0c0c0c0c0c0c0c0c"),
+    ("Response", "a1655175657279a17147657452656769737465725265636f7264a1624f6b82a1665065657249645826002408011220ea4a6c63e29c520abef5507b132ec5f9954776aebebe7b92421eea691446d22c40"),
+    ("Response", "a1655175657279a17147657452656769737465725265636f7264a163457272a17652656769737465725265636f72644e6f74466f756e64a266686f6c646572a1665065657249645826002408011220ea4a6c63e29c520abef5507b132ec5f9954776aebebe7b92421eea691446d22c636b6579a1695265636f72644b65794a7265636f72642d6b6579"),
+    ("Response", "a1655175657279a1764765744368756e6b4578697374656e636550726f6f668182a16c4368756e6b4164647265737398200d0d0d0d0d0d0d0d0d0d0d0d0d0d0d0d0d0d0d0d0d0d0d0d0d0d0d0d0d0d0d0da1624f6b982018ca185911187f1870189318ee1823188218f518aa182f18c8189218d118aa18ed18b018c6186b18981418af1859189a1418e518cc18ac18ea18431821"),
+    ("Response", "a1655175657279a16f476574436c6f736573745065657273a366746172676574a16c4368756e6b4164647265737398200e0e0e0e0e0e0e0e0e0e0e0e0e0e0e0e0e0e0e0e0e0e0e0e0e0e0e0e0e0e0e0e6570656572738182a1665065657249645826002408011220ea4a6c63e29c520abef5507b132ec5f9954776aebebe7b92421eea691446d22c814b040a000001910204b0cd03697369676e61747572659860050505050505050505050505050505050505050505050505050505050505050505050505050505050505050505050505050505050505050505050505050505050505050505050505050505050505050505050505050505050505050505050505"),
+    ("Response", "a1655175657279a16f476574436c6f736573745065657273a366746172676574a16c4368756e6b4164647265737398200e0e0e0e0e0e0e0e0e0e0e0e0e0e0e0e0e0e0e0e0e0e0e0e0e0e0e0e0e0e0e0e65706565727380697369676e6174757265f6"),
+    // GOLDEN-END
+];
+
+/// every name that may appear as a map key of a Request / Response on the wire today (variant names and field names)
+const WIRE_NAMES: &[&str] = &[
+    "Cmd", "Query", "Replicate", "PeerConsideredAsBad", "holder", "keys", "detected_by", "bad_peer", "bad_behaviour",
+    "GetStoreQuote", "GetReplicatedRecord", "GetRegisterRecord", "GetChunkExistenceProof", "CheckNodeInProblem", "GetClosestPeers",
+    "key", "nonce", "difficulty", "requester", "num_of_peers", "range", "sign_result",
+    "quote", "peer_address", "storage_proofs", "reporter_address", "target_address", "is_in_trouble", "target", "peers", "signature",
+    "Ok", "Err",
+    "PeerId", "ChunkAddress", "TransactionAddress", "RegisterAddress", "RecordKey", "ScratchpadAddress", "meta", "owner", "NonChunk",
+    "content", "timestamp", "quoting_metrics", "rewards_address", "pub_key", "secs_since_epoch", "nanos_since_epoch",
+    "close_records_stored", "max_records", "received_payment_count", "live_time", "network_density", "network_size",
+    "ChunkDoesNotExist", "RegisterNotFound", "RegisterAlreadyClaimed", "RegisterRecordNotFound", "ReplicatedRecordNotFound", "RecordExists",
+];
+
+/// An independent, minimal reader of definite-length CBOR (the oracle's own; shares nothing with cbor4ii or the model):
+/// walks one item and collects every text string that stands in map-key position.  None = not well-formed for this reader.
+fn cbor_walk(b: &[u8], pos: &mut usize, keys: &mut Vec<String>, depth: usize) -> Option<()> {
+    if depth > 64 {
+        return None;
+    }
+    let first = *b.get(*pos)?;
+    *pos += 1;
+    let (major, info) = (first >> 5, first & 0x1f);
+    let arg: u64 = match info {
+        0..=23 => info as u64,
+        24..=27 => {
+            let n = 1usize << (info - 24);
+            let s = b.get(*pos..*pos + n)?;
+            *pos += n;
+            s.iter().fold(0u64, |a, x| (a << 8) | *x as u64)
+        }
+        _ => return None,
+    };
+    match major {
+        0 | 1 => Some(()),
+        2 | 3 => {
+            let n = usize::try_from(arg).ok()?;
+            b.get(*pos..pos.checked_add(n)?)?;
+            *pos += n;
+            Some(())
+        }
+        4 => {
+            for _ in 0..arg {
+                cbor_walk(b, pos, keys, depth + 1)?;
+            }
+            Some(())
+        }
+        5 => {
+            for _ in 0..arg {
+                let start = *pos;
+                cbor_walk(b, pos, keys, depth + 1)?;
+                if b[start] >> 5 == 3 {
+                    // a text key: header then the text
+                    let hdr = match b[start] & 0x1f {
+                        0..=23 => 1,
+                        i => 1 + (1usize << (i - 24)),
+                    };
+                    keys.push(String::from_utf8_lossy(&b[start + hdr..*pos]).into_owned());
+                }
+                cbor_walk(b, pos, keys, depth + 1)?;
+            }
+            Some(())
+        }
+        7 if matches!(first, 0xf4 | 0xf5 | 0xf6) => Some(()),
+        _ => None,
+    }
+}
+
+/// the chain of variant names a message tree starts with (for the distribution counters)
+fn variant_path(t: &Tree) -> String {
+    let mut parts: Vec<String> = vec![];
+    let mut cur = t;
+    loop {
+        match cur {
+            Tree::NVar(n, p) => {
+                parts.push(n.clone());
+                cur = p;
+            }
+            Tree::UVar(n) => {
+                parts.push(n.clone());
+                break;
+            }
+            Tree::Rec(fs) => {
+                // a Result-typed field decides the class of a response
+                if let Some((k, Tree::NVar(r, p))) = fs.iter().find(|(_, v)| matches!(v, Tree::NVar(r, _) if r == "Ok" || r == "Err")) {
+                    parts.push(format!("{k}={r}"));
+                    if r == "Err" {
+                        cur = p;
+                        continue;
+                    }
+                }
+                break;
+            }
+            _ => break,
+        }
+    }
+    parts.join(":")
 }
 
 // ---------------------------------------------------------------- values the real serialiser refuses
@@ -568,6 +943,23 @@ fn exec(line: &str, tys: &[Ty]) -> String {
                     _ => format!("{k} reject"),
                 })
             }
+            "cenc" => {
+                let (t, _) = Tree::parse(&ws[2..])?;
+                let cty = ctypes().into_iter().find(|t| t.name == ws[1])?;
+                Some(match (cty.enc)(&t) {
+                    Ok(b) => hex(&b),
+                    Err(e) => format!("bad-value {}", e.replace(char::is_whitespace, "_")),
+                })
+            }
+            "cdec" | "cgold" => {
+                let b = unhex(ws[2])?;
+                let cty = ctypes().into_iter().find(|t| t.name == ws[1])?;
+                let golden = ws[0] == "cgold";
+                Some(match (cty.dec)(&b) {
+                    Ok((t, re)) if (golden && re == b) || (!golden && b.starts_with(&re)) => format!("ok {}", t.text()),
+                    _ => "reject".into(),
+                })
+            }
             "chunk" => {
                 let addr: [u8; 32] = unhex(ws[1])?.try_into().ok()?;
                 let value = unhex(ws[2])?;
@@ -588,14 +980,6 @@ fn exec(line: &str, tys: &[Ty]) -> String {
 }
 
 // ---------------------------------------------------------------- oracle (model-independent)
-
-fn cbor_round_trip<T: Serialize + DeserializeOwned + PartialEq>(v: &T) -> bool {
-    let bytes = match cbor4ii::serde::to_vec(Vec::new(), v) {
-        Ok(b) => b,
-        Err(_) => return false,
-    };
-    matches!(cbor4ii::serde::from_slice::<T>(&bytes), Ok(back) if back == *v)
-}
 
 /// `input` is what a replay needs to reproduce the case: the op line itself, preceded by the failed encodes
 /// that ran just before it on this thread (joined with " ; ").
@@ -640,6 +1024,65 @@ fn oracle(line: &str, input: &str, res: &str, out: &mut Out, tys: &[Ty]) {
             }
             if ws[0] == "rec" && !res.starts_with("91") {
                 out.oracle_fail("tag-fixed-and-two-bytes", input, "record does not start with the 2-byte header");
+            }
+        }
+        "cenc" => {
+            if res.starts_with("bad-value") {
+                out.oracle_fail("harness-value-tree", input, res);
+                return;
+            }
+            let tyname = ws[1];
+            let tree_text = ws[2..].join(" ");
+            let Some(bytes) = unhex(res) else { return };
+            // (1) the message survives the codec: reading the written bytes back gives the original value,
+            //     also with other bytes behind it (the reader takes one value and ignores the rest)
+            let back = exec(&format!("cdec {tyname} {res}"), tys);
+            if back != format!("ok {tree_text}") {
+                out.oracle_fail("message-round-trip-cbor", input, &format!("{tyname}: reading the written bytes gives `{}`", &back[..back.len().min(200)]));
+                return;
+            }
+            let back2 = exec(&format!("cdec {tyname} {res}00ff41"), tys);
+            if back2 != back {
+                out.oracle_fail("message-round-trip-cbor", input, &format!("{tyname}: with trailing bytes the reader gives `{}`", &back2[..back2.len().min(200)]));
+            }
+            // (2) no strict prefix of a written message reads as a complete message (every one for short messages, a spread otherwise)
+            let cty = ctypes().into_iter().find(|t| t.name == tyname);
+            if let Some(cty) = cty {
+                let n = bytes.len();
+                let cuts: Vec<usize> = if n <= 96 { (0..n).collect() } else { (0..48).map(|i| i * n / 48).chain([n - 1, n - 2, n - 3]).collect() };
+                for k in cuts {
+                    let r = catch_unwind(AssertUnwindSafe(|| (cty.dec)(&bytes[..k]).is_ok()));
+                    match r {
+                        Ok(false) => {}
+                        Ok(true) => {
+                            out.oracle_fail("truncated-message-rejected", &format!("cdec {tyname} {}", hex(&bytes[..k])), &format!("a {k}-byte strict prefix of a {n}-byte {tyname} is accepted as a complete value"));
+                            break;
+                        }
+                        Err(_) => {
+                            out.oracle_fail("decoders-never-panic", &format!("cdec {tyname} {}", hex(&bytes[..k])), "implementation panicked on a truncated message");
+                            break;
+                        }
+                    }
+                }
+            }
+            // (3) wire stability: every map key on the wire is one of today's variant / field names, and a message opens with
+            //     the one-entry map {"Cmd"|"Query": ..}  (read by the oracle's own CBOR walker)
+            let mut keys = vec![];
+            let mut pos = 0;
+            if cbor_walk(&bytes, &mut pos, &mut keys, 0).is_none() || pos != bytes.len() {
+                out.oracle_fail("message-wire-form", input, "the written bytes are not one definite-length CBOR item of the subset (uint, bytes, text, array, map, bool, null)");
+            } else {
+                if let Some(k) = keys.iter().find(|k| !WIRE_NAMES.contains(&k.as_str())) {
+                    out.oracle_fail("message-names-fixed", input, &format!("map key `{k}` on the wire is not one of the fixed variant / field names"));
+                }
+                if (tyname == "Request" || tyname == "Response") && !(bytes[0] == 0xa1 && matches!(keys.first().map(|s| s.as_str()), Some("Cmd") | Some("Query"))) {
+                    out.oracle_fail("message-names-fixed", input, "a message does not open with {\"Cmd\"|\"Query\": ..}");
+                }
+            }
+        }
+        "cgold" => {
+            if !res.starts_with("ok ") {
+                out.oracle_fail("message-golden-vector", input, "bytes written by an earlier build of the same protocol version are not read back and re-written identically by the current code");
             }
         }
         "ischunk" => {
@@ -813,6 +1256,11 @@ fn main() {
             v.push(format!("hdrtry {h}"));
         }
         v.push(format!("chunk {} {}", hex(&[0u8; 32]), hex(b"hello")));
+        // the two register kinds: typed records of real registers (with and without ops / payment)
+        for _ in 0..4 {
+            v.push(format!("rec Register SignedRegister {}", gen_tree(&mut rng, "SignedRegister", false).text()));
+            v.push(format!("rec RegisterWithPayment PaidRegister {}", gen_tree(&mut rng, "PaidRegister", false).text()));
+        }
         // a failed encode must leave no trace in the next successful one on the same thread
         for n in 0..N_UNSER {
             let k = KINDS[(n as usize) % KINDS.len()];
@@ -830,7 +1278,7 @@ fn main() {
                     v.push(format!("enc {n} {}", gen_tree(&mut rng, n, false).text()));
                 }
                 8..=10 => {
-                    let n = *rng.pick(&["Chunk", "PaidChunk", "Scratchpad", "PaidScratchpad", "Transactions", "PaidTransaction"]);
+                    let n = *rng.pick(&["Chunk", "PaidChunk", "Scratchpad", "PaidScratchpad", "Transactions", "PaidTransaction", "SignedRegister", "PaidRegister"]);
                     let k = if rng.chance(5, 6) { kinds_for(n)[0] } else { *rng.pick(&KINDS) };
                     v.push(format!("rec {} {n} {}", kind_name(k), gen_tree(&mut rng, n, false).text()));
                 }
@@ -934,7 +1382,7 @@ fn main() {
                     for _ in 0..rng.range(1, 2) {
                         v.push(format!("recfail {} {}", kind_name(*rng.pick(&KINDS)), rng.below(N_UNSER)));
                     }
-                    let n = *rng.pick(&["Chunk", "PaidChunk", "Scratchpad", "PaidScratchpad", "Transactions", "PaidTransaction"]);
+                    let n = *rng.pick(&["Chunk", "PaidChunk", "Scratchpad", "PaidScratchpad", "Transactions", "PaidTransaction", "SignedRegister", "PaidRegister"]);
                     v.push(format!("rec {} {n} {}", kind_name(kinds_for(n)[0]), gen_tree(&mut rng, n, false).text()));
                 }
                 _ => v.push(format!("hdrsweep {:02x}", rng.below(256))),
@@ -942,24 +1390,148 @@ fn main() {
         }
         v
     };
-    // model-independent: every Request/Response survives the codec the network really uses (libp2p request_response::cbor = cbor4ii)
-    if args.replay.is_none() {
+    // CBOR ops: appended after the MessagePack stream, from their own generator state (the earlier stream is unchanged)
+    let lines: Vec<String> = if args.replay.is_some() {
+        lines
+    } else {
+        let mut v = lines;
+        let ctys = ctypes();
         let mut rng = Rng::new(args.seed ^ 0xC0B0);
-        let mut bad = 0;
-        for _ in 0..(args.n / 10).max(50) {
-            let rq = if rng.chance(1, 2) { Request::Cmd(gen_cmd(&mut rng)) } else { Request::Query(gen_query(&mut rng)) };
-            let rs = if rng.chance(1, 3) { Response::Cmd(gen_cmd_response(&mut rng)) } else { Response::Query(gen_query_response(&mut rng)) };
-            if !cbor_round_trip(&rq) {
-                bad += 1;
-                out.oracle_fail("message-round-trip-cbor", &format!("enc Request {}", tree_of(&rq).text()), "Request does not survive the CBOR codec");
-            }
-            if !cbor_round_trip(&rs) {
-                bad += 1;
-                out.oracle_fail("message-round-trip-cbor", &format!("enc Response {}", tree_of(&rs).text()), "Response does not survive the CBOR codec");
-            }
-            out.count("oracle:cbor-round-trip");
+        for (ty, hexs) in GOLDEN {
+            v.push(format!("cgold {ty} {hexs}"));
         }
-        let _ = bad;
+        for (ty, t) in message_corpus() {
+            v.push(format!("cenc {ty} {}", t.text()));
+        }
+        // every width boundary of the CBOR argument (immediate / 1 / 2 / 4 / 8 bytes) in an integer and in a length
+        for d in [0usize, 23, 24, 255, 256, 65535, 65536, 4294967295, 4294967296, usize::MAX] {
+            v.push(format!("cenc Query {}", named_tree_of(&Query::GetStoreQuote { key: NetworkAddress::RecordKey(Bytes::new()), nonce: Some(d as u64), difficulty: d }).text()));
+        }
+        for n in [0usize, 23, 24, 255, 256, 65535, 65536] {
+            v.push(format!("cenc NetworkAddress {}", named_tree_of(&NetworkAddress::RecordKey(Bytes::from(vec![0x5A; n]))).text()));
+            v.push(format!("cenc Response {}", named_tree_of(&Response::Query(QueryResponse::GetReplicatedRecord(Ok((NetworkAddress::RecordKey(Bytes::new()), Bytes::from(vec![n as u8; n])))))).text()));
+        }
+        for n in [23usize, 24, 255, 256] {
+            let keys = (0..n).map(|i| (NetworkAddress::RecordKey(Bytes::from(vec![i as u8])), if i % 2 == 0 { RecordType::Chunk } else { RecordType::Scratchpad })).collect();
+            v.push(format!("cenc Request {}", named_tree_of(&Request::Cmd(Cmd::Replicate { holder: NetworkAddress::RecordKey(Bytes::new()), keys })).text()));
+            v.push(format!("cenc Cmd {}", named_tree_of(&Cmd::PeerConsideredAsBad { detected_by: NetworkAddress::RecordKey(Bytes::new()), bad_peer: NetworkAddress::RecordKey(Bytes::new()), bad_behaviour: "x".repeat(n) }).text()));
+        }
+        // hand-made malformed / non-canonical inputs: indefinite lengths, tags, floats, undefined, reserved infos, wrong majors,
+        // non-minimal arguments, unknown variant, unknown / missing / reordered / duplicated field, trailing bytes, empty
+        for (ty, h) in [
+            ("Request", "-"),
+            ("Request", "a1"),
+            ("Request", "a16351756572"),
+            ("Request", "a1655175657279a172436865636b4e6f6465496e50726f626c656d"),
+            ("Request", "bf655175657279a172436865636b4e6f6465496e50726f626c656da1695265636f72644b657940ff"),
+            ("Request", "a1655175657279a172436865636b4e6f6465496e50726f626c656da1695265636f72644b657940"),
+            ("Request", "a1655175657279a172436865636b4e6f6465496e50726f626c656da1695265636f72644b6579400000"),
+            ("Request", "a1655175657279a172436865636b4e6f6465496e50726f626c656da1695265636f72644b65795f40ff"),
+            ("Request", "a1655175657279a172436865636b4e6f6465496e50726f626c656da1695265636f72644b6579581f"),
+            ("Request", "a1655175657279a172436865636b4e6f6465496e50726f626c656da1695265636f72644b65795800"),
+            ("Request", "a1655175657279a172436865636b4e6f6465496e50726f626c656da1695265636f72644b657900"),
+            ("Request", "a1655175657279a172436865636b4e6f6465496e50726f626c656da1695265636f72644b657960"),
+            ("Request", "a16551756572797143686563"),
+            ("Request", "a1655175657279a16a4e6f5375636851756572794000"),
+            ("Request", "a1654f74686572a0"),
+            ("Request", "a2655175657279f6"),
+            ("Request", "b801655175657279f6"),
+            ("Request", "c1a1655175657279f6"),
+            ("Request", "f6"),
+            ("Request", "f7"),
+            ("Request", "f97e00"),
+            ("Request", "fb3ff0000000000000"),
+            ("Request", "ff"),
+            ("Request", "1c"),
+            ("Request", "9f"),
+            ("Request", "5b7fffffffffffffff00"),
+            ("Request", "9b7fffffffffffffff00"),
+            ("Request", "bb7fffffffffffffff00"),
+            ("Response", "a163436d64a1695265706c6963617465a1624f6b80"),
+            ("Response", "a163436d64a1695265706c6963617465a1624f6bf6"),
+            ("Response", "a163436d64a1695265706c6963617465a1624f6b9fff"),
+            ("Response", "a163436d64a1695265706c6963617465a1624f6b8100"),
+            ("Response", "a163436d64a1695265706c6963617465a1634572727352656 36f726450617273696e674661696c6564"),
+            ("RecordType", "654368756e6b"),
+            ("RecordType", "a1654368756e6b"),
+            ("RecordType", "a1654368756e6b80"),
+            ("RecordType", "684e6f6e4368756e6b"),
+            ("RecordType", "784368756e6b"),
+            ("RecordType", "7805 4368756e6b"),
+            ("RecordType", "65436875ff6b"),
+            ("RecordType", "454368756e6b"),
+        ] {
+            v.push(format!("cdec {ty} {}", h.replace(' ', "")));
+        }
+        let names: Vec<&str> = ctys.iter().map(|t| t.name).collect();
+        for _ in 0..(args.n * 2 / 3) {
+            match rng.below(10) {
+                0..=4 => {
+                    // messages proper (two thirds) and their component types
+                    let n = if rng.chance(2, 3) { *rng.pick(&["Request", "Response"]) } else { *rng.pick(&names) };
+                    v.push(format!("cenc {n} {}", gen_ctree(&mut rng, n, false).text()));
+                }
+                _ => {
+                    // truncated / bit-flipped / spliced / random bytes, from messages without crypto-validated leaves
+                    let n = if rng.chance(2, 3) { *rng.pick(&["Request", "Response"]) } else { *rng.pick(&names) };
+                    let t = gen_ctree(&mut rng, n, true);
+                    let cty = ctys.iter().find(|x| x.name == n).unwrap();
+                    let good = (cty.enc)(&t).unwrap_or_default();
+                    let bytes = match rng.below(12) {
+                        0 => rng.bytes(rng.clone().below(12) as usize),
+                        1 => {
+                            // a complete message followed by other bytes
+                            let mut b = good.clone();
+                            b.extend_from_slice(&rng.bytes(1 + rng.clone().below(4) as usize));
+                            b
+                        }
+                        2 => {
+                            // a header byte replaced by one of the forms the encoder never writes
+                            let mut b = good.clone();
+                            if !b.is_empty() {
+                                let i = rng.below(b.len().min(40) as u64) as usize;
+                                b[i] = *rng.pick(&[0x5fu8, 0x7f, 0x9f, 0xbf, 0xff, 0xf7, 0xf6, 0xc0, 0xfa, 0x1c, 0x18, 0x19, 0x38, 0xa0, 0xa2, 0x80]);
+                            }
+                            b
+                        }
+                        _ => mutate(&mut rng, &good),
+                    };
+                    v.push(format!("cdec {n} {}", hex(&bytes)));
+                }
+            }
+        }
+        v
+    };
+    // model-independent, outside the op stream: what the op lines cannot carry
+    if args.replay.is_none() {
+        let mut rng = Rng::new(args.seed ^ 0x0C12);
+        // the codec object and the call it is documented to make write the same bytes
+        for _ in 0..40 {
+            let rq = gen_request(&mut rng, false);
+            let rs = gen_response(&mut rng, false);
+            if codec_write_request(rq.clone()).ok() != cbor_to_vec(&rq).ok() {
+                out.oracle_fail("message-round-trip-cbor", &format!("cenc Request {}", named_tree_of(&rq).text()), "request_response::cbor::Codec::write_request differs from cbor4ii::serde::to_vec");
+            }
+            if codec_write_response(rs.clone()).ok() != cbor_to_vec(&rs).ok() {
+                out.oracle_fail("message-round-trip-cbor", &format!("cenc Response {}", named_tree_of(&rs).text()), "request_response::cbor::Codec::write_response differs from cbor4ii::serde::to_vec");
+            }
+            out.count("oracle:codec-equals-to_vec");
+        }
+        // a request longer than the codec's read limit is cut by the reader and must then be an error (never a shorter message)
+        let big = Request::Cmd(Cmd::Replicate {
+            holder: NetworkAddress::RecordKey(Bytes::new()),
+            keys: (0..9000u32).map(|i| (NetworkAddress::RecordKey(Bytes::from(vec![(i % 251) as u8; 120])), RecordType::Chunk)).collect(),
+        });
+        match codec_write_request(big) {
+            Ok(b) if b.len() > 1024 * 1024 => {
+                let r = catch_unwind(AssertUnwindSafe(|| codec_read_request(&b).is_ok()));
+                if !matches!(r, Ok(false)) {
+                    out.oracle_fail("truncated-message-rejected", "oversize-request (Cmd::Replicate, 9000 keys of 120 bytes)", &format!("a {}-byte request read through the 1 MiB limit gives {:?}", b.len(), r.ok()));
+                }
+                out.count("oracle:oversize-request-rejected");
+            }
+            _ => out.oracle_fail("harness-value-tree", "oversize-request", "could not build a request above the read limit"),
+        }
     }
     for (i, l) in lines.iter().enumerate() {
         let r = exec(l, &tys);
@@ -974,12 +1546,14 @@ fn main() {
             "dec" => format!("dec:{}:{}", ws[1], r.split_whitespace().next().unwrap_or("")),
             "recdec" => format!("recdec:{}", if r == "hdr-err" { "hdr-err" } else if r.contains(" ok ") { "ok" } else { "reject" }),
             "hdrdec" => format!("hdrdec:{}", r.split_whitespace().next().unwrap_or("")),
+            "cenc" => format!("cenc:{}:{}", ws[1], Tree::parse(&ws[2..]).map(|(t, _)| variant_path(&t)).unwrap_or_default()),
+            "cdec" | "cgold" => format!("{}:{}:{}", ws[0], ws[1], r.split_whitespace().next().unwrap_or("")),
             o => o.to_string(),
         };
         out.count(&class);
         out.nontrivial_case(l);
         out.line(l.clone(), r);
     }
-    out.notes.push("Request/Response travel as CBOR (libp2p request_response::cbor); their serde shape is compared through rmp_serde and a CBOR round trip is checked by the oracle".into());
+    out.notes.push("Request/Response travel as CBOR: cenc/cdec/cgold lines go through the real libp2p request_response::cbor codec object (write_request/read_request/..) and are compared byte for byte with the Lean CBOR model".into());
     out.finish();
 }
